@@ -7,6 +7,7 @@
 package main
 
 import (
+	"bufio"
 	"errors"
 	"fmt"
 	"net"
@@ -768,11 +769,20 @@ type evGen struct {
 	r     *vh.Rng
 	w     *world
 	cases []evCase
-	dead  bool // the real code panicked: the scenario ends
+	dead  bool          // the real code panicked: the scenario ends
+	child *bufio.Writer // E2E child process: ops are reported on stdout as they run
 }
 
 func (g *evGen) emit(op, class string, nt bool) string {
+	if g.child != nil {
+		fmt.Fprintf(g.child, "B\t%s\t%s\n", class, op)
+		g.child.Flush()
+	}
 	a := g.w.exec(op)
+	if g.child != nil {
+		fmt.Fprintf(g.child, "E\t%s\n", a)
+		g.child.Flush()
+	}
 	g.cases = append(g.cases, evCase{op, a, class, nt})
 	if strings.HasPrefix(a, "crash:") || strings.HasPrefix(a, "err:setup") {
 		g.dead = true
